@@ -1,4 +1,4 @@
-"""main.py — ./check entry point (see DESIGN.md section 2.2)."""
+"""main.py — ./check entry point (see DESIGN.md section 2)."""
 from __future__ import annotations
 
 import argparse
